@@ -8,6 +8,9 @@ from harness.props import clcommon as cl
 ID = "C04"
 CHECK_MODULE = "Changelog.Check"
 PROPS_FILE = "Props/C04.v"
+# the printer (ChangeBlock._format / Changelog._format / __str__), add_change and add_trailing_line are regenerated from
+# the source and tied to the model in coq/Props/C04Tie.v (spec: harness/props/clcommon.py TR_BLOCK / TR_MODULE)
+TIE_FILE = "Props/C04Tie.v"
 ANCHORS = [("lib/debian/changelog.py",
             ["parse_changelog", "_format", "_parse_error", "topline", "blankline", "changere", "endline",
              "endline_nodetails", "keyvalue", "value_re"])]
@@ -27,7 +30,12 @@ RULE = ("documents drawn from the deb-changelog(5) grammar by harness/props/clco
         "regex-leaf cases (seven patterns; seeds, single-edit mutants, random strings; bounded-exhaustive in "
         "the thorough tier).  non-trivial = a grammar case with a change line or an extra pair, a fixture, "
         "or a leaf subject that matches")
-TRUSTED = ["model coq/Changelog/Model.v is a hand transcription of Changelog.parse_changelog / _format "
+TRUSTED = ["tie by regeneration (coq/Props/C04Tie.v): parse_changelog / _parse_error / __init__ / ChangeBlock._format / "
+           "Changelog._format / __str__ / add_change / add_trailing_line are regenerated from the source (harness/py2coq.py) and "
+           "proved equal to the model for all inputs; trusted there: the translator, coq/Lib/Tr.v, the primitives of "
+           "coq/Changelog/TrPrims.v and TrPrimsParse.v (regex leaves = the model's leaves, str/list/dict methods, "
+           "ChangeBlock() = empty_block, attribute stores as record updates, warnings as kinds) and the types in clcommon.py",
+           "model coq/Changelog/Model.v is a hand transcription of Changelog.parse_changelog / _format "
            "(seven regex leaves included); tied to the code only by this correspondence",
            "the thirteen junk patterns (emacs/vim/cvs/comments/old_format_re1-8) are not modelled: per-case "
            "line->flags tables are computed by the harness from the live compiled patterns",
